@@ -57,11 +57,11 @@ theorem initLoop_ids_sub (l : List String) : ∀ (s : St) (i : Nat) (P : String 
     · rw [hf.1] at he; exact h e he.1
     · rw [he, hf.2.2.2.2.1]; exact hl x List.mem_cons_self
 
-theorem init_ids_sub {r d : Int} {l : List String} {s : St} (h : init r d l = some s) : ∀ e ∈ s.eps, e.id ∈ l := by
+theorem init_ids_sub {r d : Int} {l : List String} {s : St} (h : initRaw r d l = some s) : ∀ e ∈ s.eps, e.id ∈ l := by
   cases l with
-  | nil => simp [init] at h
+  | nil => simp [initRaw] at h
   | cons first rest =>
-    simp only [init, Option.some.injEq] at h
+    simp only [initRaw, Option.some.injEq] at h
     subst h
     apply initLoop_ids_sub (first :: rest) _ _ (fun id => id ∈ first :: rest)
     · intro e he; cases he
@@ -97,5 +97,27 @@ theorem opSetAvail_ids (s : St) (id : String) (a : Bool) :
           refine ⟨y, hy, ?_⟩
           rw [← e1]
           split <;> rfl
+
+/-! ### the same at the API (`init`, `step`: arguments normalised first, F29/F30) -/
+
+theorem api_step_reach {s : St} (op : Op) (h : Reach s) : Reach (step s op).1 := Reach.stepRaw (normOp op) h
+
+theorem api_init_reach {r d : Int} {l : List String} {s : St} (h : init r d l = some s) : Reach s :=
+  Reach.initRaw (r := max r 0) (d := max d 0) (Int.le_max_right r 0) (Int.le_max_right d 0) h
+
+theorem eraseDups_ne_nil {l : List String} (h : l ≠ []) : l.eraseDups ≠ [] := by
+  cases l with
+  | nil => exact absurd rfl h
+  | cons a as => rw [List.eraseDups_cons]; exact List.cons_ne_nil _ _
+
+theorem api_setEndpoints_ids_sub (s : St) (l : List String) (hl : l ≠ []) :
+    ∀ e ∈ (step s (.setEndpoints l)).1.eps, e.id ∈ l := fun e he =>
+  List.mem_eraseDups.mp (opSetEndpoints_ids_sub s l.eraseDups (eraseDups_ne_nil hl) e he)
+
+theorem api_init_ids_sub {r d : Int} {l : List String} {s : St} (h : init r d l = some s) : ∀ e ∈ s.eps, e.id ∈ l :=
+  fun e he => List.mem_eraseDups.mp (init_ids_sub h e he)
+
+theorem api_init_isSome (r d : Int) (a : String) (as : List String) : (init r d (a :: as)).isSome = true := by
+  simp only [init]; rw [List.eraseDups_cons]; rfl
 
 end GcpVerif.ME
